@@ -242,3 +242,53 @@ func VerifC14_Peer() {
 	vf.Assert("depth-zero-after-unwinding", vf.All(ioc.Dispatched == 0, depth == 0))
 	vf.Reach("end")
 }
+
+// Sequences of writes on ONE peer to independent symbolic destinations (address and port each):
+// every successful write emits exactly one more datagram, to the destination of THAT write, with
+// its bytes — whatever the previous write's destination was (same address / other port included).
+func VerifC12_PeerWriteSequence() {
+	ioc, p, fd := c12Peer(vkernel.Config{AllowAgain: true, AllowIOErr: true, Batch: 1, MaxWaits: 6})
+	k := &vkernel.K.FDs[fd]
+	N := vf.Bound("writes", 2, 3)
+	vf.Unwind(16)
+	sent := 0
+	var prevA [4]byte
+	prevPort := -1
+	for i := 0; i < N; i++ {
+		var a4 [4]byte
+		a4[0], a4[1], a4[2], a4[3] = vf.Uint8("a"), vf.Uint8("b"), vf.Uint8("c"), vf.Uint8("d")
+		dport := vf.Uint16("port")
+		to := netip.AddrPortFrom(netip.AddrFrom4(a4), dport)
+		b := vf.Bytes("payload", 2)
+		var err error
+		n, calls := 0, 1
+		if vf.Bool("async") {
+			calls = 0
+			p.AsyncWrite(b, to, func(e error, m int) { calls++; err, n = e, m })
+			for c := 0; c < 2 && calls == 0; c++ {
+				ioc.PollOne()
+			}
+			vf.Assert("at-most-once", calls <= 1)
+		} else {
+			n, err = p.Write(b, to)
+		}
+		if calls == 1 && err == nil {
+			sent++
+			vf.Assert("one-more-datagram-emitted", vf.All(k.Sent == sent, n == 2, len(k.Accepted) == 2, k.Accepted[0] == b[0], k.Accepted[1] == b[1]))
+			vf.Assert("datagram-goes-to-the-destination-of-this-write", vf.All(k.SentTo[0] == a4[0], k.SentTo[1] == a4[1], k.SentTo[2] == a4[2], k.SentTo[3] == a4[3], k.SentPort == int(dport)))
+			if prevPort >= 0 && prevA == a4 && prevPort != int(dport) {
+				vf.Reach("opt:same-address-other-port")
+			}
+			prevA, prevPort = a4, int(dport)
+		} else {
+			vf.Assert("nothing-emitted-without-success", k.Sent == sent)
+		}
+		if calls == 0 {
+			break // still pending after two cycles: outside this sequence
+		}
+	}
+	if sent >= 2 {
+		vf.Reach("two-writes-sent")
+	}
+	vf.Reach("end")
+}
